@@ -13,6 +13,8 @@ pub struct Target<'a> {
 }
 
 pub struct Minimiser<'a> {
+    /// candidates outside the property's scenario domain are never tried
+    pub admissible: &'a (dyn Fn(&Scenario) -> bool + Sync),
     pub ctx: &'a Ctx,
     pub oracle: &'a Oracle,
     pub target: Target<'a>,
@@ -22,7 +24,7 @@ pub struct Minimiser<'a> {
 
 impl<'a> Minimiser<'a> {
     pub fn fails(&mut self, sc: &Scenario) -> bool {
-        if self.used >= self.budget {
+        if self.used >= self.budget || !(self.admissible)(sc) {
             return false;
         }
         self.used += 1;
